@@ -196,6 +196,17 @@ func c14Ops(tier string) []c14Op {
 			idLists = append(idLists, []uint32{a, b})
 		}
 	}
+	// lists of 3 with a repeated id, adjacent and not ([1 1 2], [1 2 1], [2 1 2], ...): a repeat must not survive
+	for _, a := range []uint32{1, 2} {
+		for _, b := range []uint32{1, 2} {
+			for _, c := range []uint32{1, 2} {
+				if a == b && b == c {
+					continue
+				}
+				idLists = append(idLists, []uint32{a, b, c})
+			}
+		}
+	}
 	for _, I := range idLists {
 		I := I
 		ops = append(ops, c14Op{name: fmt.Sprintf("NodeIDs%v", I), group: "NodeIDs",
@@ -482,7 +493,7 @@ func c14Seq(tier, group string, depth int) func(r *vp.InstResult) {
 
 func init() {
 	register(&Check{ID: "C14",
-		Rule: "explicit-state BFS over configuration-building operations executed on the real manager (successor = replay of the shortest path on a fresh manager + one operation), depth 3 (quick) / 4 (thorough, within the time budget); alphabet: WithNodeList over every address list of length 1..2 (3 thorough) from {a, b, c, c'} (c, c' have colliding generated IDs; duplicates included), WithNodeMap over every 1-2 entry map {a,b,c}->{1,2} in both iteration orders, WithNodeIDs over lists from {1, 2, id(a), unknown}, And / Except / WithoutNodes / WithNewNodes over the configurations built so far; states deduplicated by (pool, list of configurations); reference model = Go sets; states = distinct canonical states, transitions = operations executed and compared",
+		Rule: "explicit-state BFS over configuration-building operations executed on the real manager (successor = replay of the shortest path on a fresh manager + one operation), depth 3 (quick) / 4 (thorough, within the time budget); alphabet: WithNodeList over every address list of length 1..2 (3 thorough) from {a, b, c, c'} (c, c' have colliding generated IDs; duplicates included), WithNodeMap over every 1-2 entry map {a,b,c}->{1,2} in both iteration orders, WithNodeIDs over lists of 1-2 ids from {1, 2, id(a), unknown} and lists of 3 over {1, 2} with adjacent and non-adjacent repeats, And / Except / WithoutNodes / WithNewNodes over the configurations built so far; states deduplicated by (pool, list of configurations); reference model = Go sets; states = distinct canonical states, transitions = operations executed and compared",
 		Gen: func(tier string) []Instance {
 			depth := 3
 			if thorough(tier) {
